@@ -245,6 +245,18 @@ fn main() {
           picked.push(**rng.pick(&mine[..]));
         }
       }
+      // headers and trailers (counts, lengths, magic numbers, trailing checksums) are where a
+      // format keeps what its inner checks do not cover: every file gets flips in its first and
+      // last 12 bytes whatever the sample says
+      for (fi, f) in files.iter().enumerate() {
+        let n = f.bytes.len();
+        let edge: Vec<usize> = (0..n.min(12)).chain(n.saturating_sub(12)..n).collect();
+        for pos in edge {
+          for _ in 0..2 {
+            picked.push((fi, 0, pos, *rng.pick(&MASKS[..])));
+          }
+        }
+      }
       picked.sort();
       picked.dedup();
       probes = picked;
